@@ -940,7 +940,7 @@ func HandleTranOldPostNews(cc *hotline.ClientConn, t *hotline.Transaction) (res 
 	newsPost := fmt.Sprintf(newsTemplate+"\r", cc.UserName, time.Now().Format(newsDateTemplate), t.GetField(hotline.FieldData).Data)
 	newsPost = strings.ReplaceAll(newsPost, "\n", "\r")
 
-	_, err := cc.Server.MessageBoard.Write([]byte(newsPost))
+	err := cc.Server.PostMessageBoard([]byte(newsPost))
 	if err != nil {
 		cc.Logger.Error("error writing news post", "err", err)
 		return nil
@@ -1277,9 +1277,7 @@ func HandleGetMsgs(cc *hotline.ClientConn, t *hotline.Transaction) (res []hotlin
 		return cc.NewErrReply(t, "You are not allowed to read news.")
 	}
 
-	_, _ = cc.Server.MessageBoard.Seek(0, 0)
-
-	newsData, err := io.ReadAll(cc.Server.MessageBoard)
+	newsData, err := cc.Server.ReadMessageBoard()
 	if err != nil {
 		cc.Logger.Error("Error reading messageboard", "err", err)
 	}
